@@ -3,6 +3,7 @@ package scen
 import (
 	"bytes"
 	"fmt"
+	"strings"
 
 	erpc "github.com/henrylee2cn/erpc/v6"
 	"github.com/henrylee2cn/erpc/v6/plugin/secure"
@@ -150,5 +151,78 @@ func c17(p Params) func() {
 			}
 		}
 		vsched.Logf("%s", ctxt)
+	}
+}
+
+func init() { Sched["c17_seq"] = c17Seq }
+
+// c17Seq: every sequence of marked and unmarked calls and pushes on ONE session (handler contexts, messages and
+// swap maps are recycled between them). Each message is judged on its own traffic: marked ones are not readable
+// on the wire and are delivered intact, unmarked ones pass unchanged (readable on the wire, reply not marked).
+func c17Seq(p Params) func() {
+	depth := p.Int("depth", 3)
+	proto := p.Get("proto", "raw")
+	return func() {
+		begin()
+		const key = "0123456789abcdef"
+		var got []string
+		srv := world.NewPeer("json", secure.NewPlugin(9001, key))
+		hc := srv.RouteCallFunc(func(ctx erpc.CallCtx, a *string) (*string, *erpc.Status) {
+			got = append(got, *a)
+			r := "R" + *a
+			return &r, nil
+		})
+		hp := srv.RoutePushFunc(func(ctx erpc.PushCtx, a *string) *erpc.Status {
+			got = append(got, *a)
+			return nil
+		})
+		cli := world.NewPeer("json", secure.NewPlugin(9002, key))
+		cs, _, link := world.Connect(cli, srv, world.Proto(proto))
+		kinds := []string{"call", "call_secure", "call_accept", "push", "push_secure"}
+		hist := ""
+		for i := 0; i < depth; i++ {
+			kind := kinds[vsched.Choose(len(kinds), "op")]
+			hist += kind + " "
+			arg := entropy(20, uint32(100+i))
+			n1, n2, g := len(link.A.Written), len(link.B.Written), len(got)
+			var settings []erpc.MessageSetting
+			switch kind {
+			case "call_secure", "push_secure":
+				settings = append(settings, secure.WithSecureMeta())
+			case "call_accept":
+				settings = append(settings, secure.WithAcceptSecureMeta(true))
+			}
+			reqEnc := kind == "call_secure" || kind == "push_secure"
+			a := arg
+			if strings.HasPrefix(kind, "call") {
+				var res string
+				cmd := cs.Call(hc, &a, &res, settings...)
+				vsched.Quiesce()
+				if st := cmd.Status(); !st.OK() || res != "R"+arg {
+					vsched.Failf("%s #%d: caller got %s %q, want OK %q | %s", kind, i, world.StatStr(st), res, "R"+arg, hist)
+				}
+				s2c := link.B.Written[n2:]
+				repEnc := kind != "call"
+				if readable := bytes.Contains(s2c, []byte("R"+arg)); repEnc == readable {
+					vsched.Failf("%s #%d: result readable on the wire = %v, reply must be encrypted = %v | %s", kind, i, readable, repEnc, hist)
+				}
+				if m := cmd.InputMeta(); kind == "call" && m != nil && len(m.Peek(secure.SECURE_META_KEY)) > 0 {
+					vsched.Failf("%s #%d: the reply to an unmarked call is marked %s=%s | %s", kind, i, secure.SECURE_META_KEY, m.Peek(secure.SECURE_META_KEY), hist)
+				}
+			} else {
+				if st := cs.Push(hp, &a, settings...); !st.OK() {
+					vsched.Failf("%s #%d: push failed: %s | %s", kind, i, world.StatStr(st), hist)
+				}
+				vsched.Quiesce()
+			}
+			c2s := link.A.Written[n1:]
+			if readable := bytes.Contains(c2s, []byte(arg)); reqEnc == readable {
+				vsched.Failf("%s #%d: argument readable on the wire = %v, request must be encrypted = %v | %s", kind, i, readable, reqEnc, hist)
+			}
+			if len(got) != g+1 || got[g] != arg {
+				vsched.Failf("%s #%d: the handler received %q, the sender supplied %q | %s", kind, i, got[g:], arg, hist)
+			}
+		}
+		vsched.Logf("%s", hist)
 	}
 }
